@@ -13,37 +13,37 @@ CLAIMED = {
   ref="DESIGN.md §3 C04"),
  "C05": dict(
   technique="static analysis: field-flow PAIR rules over go/ssa, who-may-call rule, decision-table extraction by abstract interpretation, dominator (presence-guard) rule, property-table/struct-tag agreement",
-  text="Structural necessary clauses: every FileInfo field flows into the matching PROPFIND property and GET/HEAD header on the server and is written from the matching wire property on the client (kind via ResourceType.Is(collection)); presence guards are on the non-zero side; property tables are keyed by the element they write; http.NewRequest is called only in internal.(*Client).NewRequest with ResolveHref(name).String(), every Destination header is ResolveHref(dest).String(), and ResolveHref's table is 'leading slash as is, else joined to the endpoint path'; the client's Copy/Move/ReadDir send exactly the Overwrite/Depth values that the server tables of C01 map back to the requested options. Does not decide the fidelity of URL/XML/HTTP-date escaping on particular characters nor byte-for-byte upload content (run-time behaviour of net/url, encoding/xml, net/http).",
+  text="Structural necessary clauses: every FileInfo field flows into the matching PROPFIND property and GET/HEAD header on the server and is written from the matching wire property on the client (kind via ResourceType.Is(collection)); presence guards are on the non-zero side; property tables are keyed by the element they write; http.NewRequest is called only in internal.(*Client).NewRequest with ResolveHref(name).String(), every Destination header is ResolveHref(dest).String(), and ResolveHref's table is 'leading slash as is, else joined to the endpoint path'; the client's Copy/Move/ReadDir send exactly the Overwrite/Depth values that the server tables of C01 map back to the requested options. Does not decide the fidelity of URL/XML/HTTP-date escaping on particular characters nor byte-for-byte upload content (run-time behaviour of net/url, encoding/xml, net/http). Also: which properties are registered for a file as a function of its FileInfo (length always), ReadDir's listing table under a Walk model with SkipDir semantics, truncation of write-opens, no re-parsing of decoded paths, UTC normalisation of HTTP dates, and the server-side dispatch and adapter tables (so that 'exactly the requested options' is decided end to end by this check).",
   note="Trusted: go/ssa; flows are may-flows (a missing flow is definite, a present flow may still be wrong in value).",
   ref="DESIGN.md §3 C05"),
  "C10": dict(
   technique="static analysis: field-flow PAIR rules over go/ssa (per public client method), decision-table extraction by abstract interpretation (multiget), dominator (presence-guard) rule, property-table/struct-tag agreement, struct-tag schema check against RFC element tables",
-  text="Structural necessary clauses: each named attribute of Calendar/AddressBook/CalendarObject/AddressObject flows from the backend's value into the matching response property, header and body encoder on the server, and every field of the values returned by each public client method is written from the matching wire property or header (per method, so a dropped assignment in one method is not masked by another); PUT hands the caller's object to the encoder; presence guards are on the non-zero side; property tables are keyed by the element they write; multiget answers every href exactly once in order with the object or the backend's own status (exhaustive for <= 2 hrefs); all wire structs agree with the RFC element tables. Does not decide the iCalendar/vCard text round trip (go-ical/go-vcard), escaping, or lexical variants of incoming documents.",
+  text="Structural necessary clauses: each named attribute of Calendar/AddressBook/CalendarObject/AddressObject flows from the backend's value into the matching response property, header and body encoder on the server, and every field of the values returned by each public client method is written from the matching wire property or header (per method, so a dropped assignment in one method is not masked by another); PUT hands the caller's object to the encoder; presence guards are on the non-zero side; property tables are keyed by the element they write; multiget answers every href exactly once in order with the object or the backend's own status (exhaustive for <= 2 hrefs); all wire structs agree with the RFC element tables. Does not decide the iCalendar/vCard text round trip (go-ical/go-vcard), escaping, or lexical variants of incoming documents. Also: property-set tables, NewErrorResponse over bare/wrapped errors, Response.DecodeProp over <= 2 propstats (a failing propstat that does not contain the property is skipped), UTC normalisation, no re-parsing of decoded paths.",
   note="Trusted: go/ssa; RFC tables in checker/e6_schema.go. Child order of DAV: elements is only noted (RFC 4918 §14 declares it irrelevant).",
   ref="DESIGN.md §3 C10"),
  "C08": dict(
   technique="static analysis: field-flow (taint) analysis over go/ssa + struct-tag schema check against RFC element tables",
-  text="Structural necessary conditions only, decided for every path of the current source: every field of the public CalDAV query types flows into a wire struct field in the client's request builders, every field of the wire request structs flows into the public query handed to the backend and every field of that query is written from the request, text fields pass unaltered, and the xml struct tags agree with the RFC 4791/4918 element tables. It decides that nothing is structurally dropped; it does not decide value-level fidelity (escaping, whitespace, lexical variants), which is run-time behaviour of encoding/xml.",
+  text="Structural necessary conditions only, decided for every path of the current source: every field of the public CalDAV query types flows into a wire struct field in the client's request builders, every field of the wire request structs flows into the public query handed to the backend and every field of that query is written from the request, text fields pass unaltered, and the xml struct tags agree with the RFC 4791/4918 element tables. It decides that nothing is structurally dropped; it does not decide value-level fidelity (escaping, whitespace, lexical variants), which is run-time behaviour of encoding/xml. Also: match text is not written as a CDATA section (carriage returns cannot be escaped there); hrefs are never re-parsed as URLs; an instant formatted with a literal-Z layout is UTC-normalised at the site or by its type's invariant.",
   note="Trusted: go/types+go/ssa (x/tools v0.29.0), encoding/xml's documented tag semantics, my transcription of the RFC DTD fragments (checker/e6_schema.go). Flows are may-flows: a reported flow can still be wrong in value; a missing flow is definite.",
   ref="DESIGN.md §3 C08"),
  "C09": dict(
   technique="static analysis: field-flow (taint) analysis over go/ssa + struct-tag schema check against RFC element tables",
-  text="Same structural clauses as C08 for the CardDAV query codecs (addressbook-query, addressbook-multiget, sync-collection) and the RFC 6352/6578 element tables.",
+  text="Same structural clauses as C08 for the CardDAV query codecs (addressbook-query, addressbook-multiget, sync-collection) and the RFC 6352/6578 element tables. Also: hrefs are never re-parsed as URLs.",
   note="As C08.",
   ref="DESIGN.md §3 C09"),
  "C13": dict(
   technique="static analysis: error-provenance and request-taint dataflow over go/ssa, call-graph reachability with reflection roots, dominator-based guard rules",
-  text="Structural necessary conditions, decided over all paths of the current source: every request-caused error origin that can reach ServeError carries a 4xx label; explicit panics reachable from the handlers equal a reviewed table whose mechanical justifications are re-checked; optional pointers of request-decoded structs and constant indexes are guarded; stream-driven recursion carries a depth bound; parse errors are tested before use and before any mutating backend call. Does not decide panics inside encoding/xml, go-ical, go-vcard, net/http.",
+  text="Structural necessary conditions, decided over all paths of the current source: every request-caused error origin that can reach ServeError carries a 4xx label; explicit panics reachable from the handlers equal a reviewed table whose mechanical justifications are re-checked; optional pointers of request-decoded structs and constant indexes are guarded; stream-driven recursion carries a depth bound; parse errors are tested before use and before any mutating backend call. Does not decide panics inside encoding/xml, go-ical, go-vcard, net/http. Also: slice expressions and len-relative indexes are dominated by sufficient length tests; the sanitiser's refusal table; ServeError's status table over wrapped errors.",
   note="Trusted: go/ssa, CHA call graph plus explicit reflection edges for encoding/xml's (Un)Marshal* calls; the frozen list of parse/decode functions and of mutating backend methods in checker/p_c13.go.",
   ref="DESIGN.md §3 C13"),
  "C14": dict(
   technique="static analysis: who-may-call/who-may-access rules, dominator-based release and guard rules, field-flow, call-graph reachability over go/ssa",
-  text="Structural necessary conditions over all paths of the current source: a single HTTP gate that every public client method reaches; the response status flows unaltered into the error; per-resource status fields are only touched inside package internal and a property is decoded only after both status tests; every response obtained from Do is closed or handed on; stream-driven recursion is depth-bounded; reachable explicit panics equal a reviewed table; parse errors are tested before use. Does not decide behaviour inside encoding/xml, net/http or the iCalendar/vCard parsers.",
+  text="Structural necessary conditions over all paths of the current source: a single HTTP gate that every public client method reaches; the response status flows unaltered into the error; per-resource status fields are only touched inside package internal and a property is decoded only after both status tests; every response obtained from Do is closed or handed on; stream-driven recursion is depth-bounded; reachable explicit panics equal a reviewed table; parse errors are tested before use. Does not decide behaviour inside encoding/xml, net/http or the iCalendar/vCard parsers. Also: Response.DecodeProp's decision table and the streamed-upload protocol (shared with C18.upload: exactly one send, receive only in Close, nothing but nil or a reported failure is sent).",
   note="Trusted: go/ssa, CHA call graph plus reflection edges; the user's HTTPClient returns a non-nil response or a non-nil error.",
   ref="DESIGN.md §3 C14"),
  "C18": dict(
   technique="static analysis: interprocedural write-effects analysis (roots of every store) and CFG path counting over go/ssa",
-  text="Decides that the library has no mutable state shared between calls (no store rooted in a package variable or a Handler/Client receiver outside initialisers, directly or through callees; Marshal methods do not write through their receiver; adapters are per-request locals) — hence no data race on library state — and the upload protocol of Client.Create: the only go statement, a buffered done channel, exactly one send on every goroutine path, no loop, Close returns the received value. Does not decide scheduler interleavings inside net/http or the OS, nor that Write unblocks when the peer stops reading (transport contract).",
+  text="Decides that the library has no mutable state shared between calls (no store rooted in a package variable or a Handler/Client receiver outside initialisers, directly or through callees; Marshal methods do not write through their receiver; adapters are per-request locals) — hence no data race on library state — and the upload protocol of Client.Create: the only go statement, a buffered done channel, exactly one send on every goroutine path, no loop, Close returns the received value. Does not decide scheduler interleavings inside net/http or the OS, nor that Write unblocks when the peer stops reading (transport contract). Also: an object returned to a sync.Pool is not reachable from anything returned or stored, including through results that alias its memory; the upload goroutine sends nil or a failure reported by a call.",
   note="Trusted: go/ssa; external functions write through their arguments only if listed in checker/e5_effects.go.",
   ref="DESIGN.md §3 C18"),
  "C19": dict(
@@ -54,12 +54,12 @@ CLAIMED = {
  "C07": dict(
   technique="static analysis: decision-table extraction by abstract interpretation of go/ssa over finite predicate domains (compositional), plus write-effects analysis for purity",
   text="Extracts from the SSA of the current source the decision tables of carddav.Match (layered: query level over <=3 prop-filters, prop-filter level over presence, is-not-defined, inner test and <=3 text-matches, text-match level over match type, negate and predicate, with the operands of each predicate), of Filter (lists <=3, Limit -1..4, per-object match true/false/error) and of the projection, and compares every row with a reference evaluator written from the statement; purity (no write through query, objects or their card) is decided by the effects analysis. Exhaustive over the declared abstract domain; string predicates are independent atoms.",
-  note="Trusted: go/ssa; models of vcard.Card.Get (presence atom + field). Domain constraints: filter names pairwise distinct, vCard non-empty. Bounded list lengths.",
+  note="Trusted: go/ssa; models of vcard.Card.Get (presence atom + field). Domain constraints: filter names pairwise distinct, vCard non-empty. Bounded list lengths. Layered tables run bottom-up; the outcomes a helper's own table shows (including an error returned together with true) are the domain of its atom in the layer above.",
   ref="DESIGN.md §3 C07"),
  "C06": dict(
   technique="static analysis: decision-table extraction by abstract interpretation of go/ssa over finite predicate domains (weak-order domain for instants, partition domain for names), compositional; write-effects analysis for purity",
   text="Extracts from the SSA of the current source, layer by layer, the decision tables of the evaluator behind caldav.Match — time-range of a non-recurring VEVENT over every weak ordering of range start/end and DTSTART/DTEND (and the open-ended forms), property time-range, component filter at root and child level, property filter, parameter filter, text-match with negate-condition, each sub-result true/false/error — and of Filter, and compares every row with a reference evaluator written from RFC 4791 §9.7–9.9 as quoted in the statement. Exhaustive over the declared abstract domain (the RFC grammar's side constraints). Does not decide recurring events (rrule-go), text comparison on real strings, multi-valued properties.",
-  note="Trusted: go/ssa; models of go-ical accessors (presence atoms, instant symbols with failure atoms); my reading of RFC 4791 §9.9. Helpers are identified by their signatures; if the evaluator is restructured beyond that, the check reports 'undecided' (fails closed).",
+  note="Trusted: go/ssa; models of go-ical accessors (presence atoms, instant symbols with failure atoms); my reading of RFC 4791 §9.9. Helpers are identified by their signatures; if the evaluator is restructured beyond that, the check reports 'undecided' (fails closed). Layered tables run bottom-up; the outcomes a helper's own table shows (including an error returned together with true) are the domain of its atom in the layer above.",
   ref="DESIGN.md §3 C06"),
  "C16": dict(
   technique="static analysis: exhaustive decision tables for the finite codecs (abstract interpretation of go/ssa), structural pairing rules and a value rule on time.Format sites",
@@ -68,22 +68,22 @@ CLAIMED = {
   ref="DESIGN.md §3 C16"),
  "C03": dict(
   technique="static analysis: backward must-derive taint from every file-system call argument to the sanitiser, who-may-call layering, and the sanitiser's decision table by abstract interpretation of go/ssa",
-  text="Decides the complete lexical confinement argument on every path of the current source: every path argument of every os/ioutil/filepath.Walk call derives only from localPath's result where its error is nil (through phis, captured variables, helper parameters over all call sites, Walk callbacks); such calls occur only in LocalFileSystem methods and their private helpers; localPath succeeds exactly for NUL-free names whose path.Clean form is absolute and returns Join(root, FromSlash(Clean(name))), 4xx otherwise (per GOOS); every reported path is the request name or \"/\"+ToSlash(Rel(root, walk path)). Anchored at the sinks, so it covers the request path and Destination alike. Behaviour with symbolic links and URL escaping of reported paths are not decided.",
+  text="Decides the complete lexical confinement argument on every path of the current source: every path argument of every os/ioutil/filepath.Walk call derives only from localPath's result where its error is nil (through phis, captured variables, helper parameters over all call sites, Walk callbacks); such calls occur only in LocalFileSystem methods and their private helpers; localPath succeeds exactly for NUL-free names whose path.Clean form is absolute and returns Join(root, FromSlash(Clean(name))), 4xx otherwise (per GOOS); every reported path is the request name or \"/\"+ToSlash(Rel(root, walk path)). Anchored at the sinks, so it covers the request path and Destination alike. Behaviour with symbolic links and URL escaping of reported paths are not decided. Also: url.Parse is applied only to encoded text, never to a decoded resource path (reported hrefs); ServeError reports the 4xx a refusal was labelled with even when wrapped.",
   note="Trusted: go/ssa; path.Clean removes every '..' of a rooted path; filepath.Join/FromSlash are lexical; no symlink below the root points outside.",
   ref="DESIGN.md §3 C03"),
  "C15": dict(
   technique="static analysis: decision-table extraction by abstract interpretation of go/ssa over token-kind sequences",
-  text="Thin by design and said so: decides that the capture/replay code handles every token kind, in order, with matching ends — the decision table of UnmarshalXML over every token sequence within the bound equals a reference parser (recursive capture, one CopyToken child per other token, stale receiver state discarded, read errors returned), MarshalXML and the TokenReader replay start, children in order and End() of the same start for every small tree, Token always makes progress and EOF is sticky, and Decode reads from the value's own reader. The namespace behaviour the statement is mostly about lives in encoding/xml's encoder and is NOT decided.",
+  text="Thin by design and said so: decides that the capture/replay code handles every token kind, in order, with matching ends — the decision table of UnmarshalXML over every token sequence within the bound equals a reference parser (recursive capture, one CopyToken child per other token, stale receiver state discarded, read errors returned), MarshalXML and the TokenReader replay start, children in order and End() of the same start for every small tree, Token always makes progress and EOF is sticky, and Decode reads from the value's own reader. The namespace behaviour the statement is mostly about lives in encoding/xml's encoder and is NOT decided. Also: every store to RawXMLValue.children is nil, fresh or an append — never a reslice of the old slice (the type is copied by value).",
   note="Trusted: go/ssa; the model of xml.Decoder.Token as an arbitrary token sequence and of xml.CopyToken as a same-kind copy. Bounded token count / tree size.",
   ref="DESIGN.md §3 C15"),
  "C01": dict(
   technique="static analysis: decision tables and fault exploration by abstract interpretation of the whole file server's go/ssa (typed abstract OS errors), plus structural rules",
-  text="Decides the structural part only, not the equivalence with the resource-tree model: the dispatch and success-code table, the COPY/MOVE/PROPFIND header tables, the adapter's option polarity and code-decided refusals, and, by exploring webdav.(*Handler).ServeHTTP with LocalFileSystem bound over every outcome of every OS call (resource states and errno classes as typed abstract errors), the status that reaches the client, compared with the RFC 4918 scenario table; plus two structural conditions of COPY/MOVE (the Walk callback addresses effects through its path parameter; source and destination are compared). Known defects of the pinned tree (status mapping D9, COPY/MOVE structure D10) are listed in known_findings.json. Does not decide the tree after a successful request, bodies/headers of GET/PROPFIND, nor request sequences.",
+  text="Decides the structural part only, not the equivalence with the resource-tree model: the dispatch and success-code table, the COPY/MOVE/PROPFIND header tables, the adapter's option polarity and code-decided refusals, and, by exploring webdav.(*Handler).ServeHTTP with LocalFileSystem bound over every outcome of every OS call (resource states and errno classes as typed abstract errors), the status that reaches the client, compared with the RFC 4918 scenario table; plus two structural conditions of COPY/MOVE (the Walk callback addresses effects through its path parameter; source and destination are compared). Known defects of the pinned tree (status mapping D9, COPY/MOVE structure D10) are listed in known_findings.json. Does not decide the tree after a successful request, bodies/headers of GET/PROPFIND, nor request sequences. Also: a request during which nothing goes wrong in the operating system is never answered 5xx (the exploration is replayed over an abstract per-resource state: a call that cannot succeed in the state the request itself observed is the code's own doing); every file opened for writing by PUT/COPY is truncated; ServeError answers with the status found anywhere in the error chain.",
   note="Trusted: go/ssa; the interpreter's models of os, path/filepath and net/http calls and the errno classes each call can produce (checker/p_fs.go); one resource plus at most one member per directory.",
   ref="DESIGN.md §3 C01, Appendix A"),
  "C02": dict(
   technique="static analysis: trace property over the abstract fault exploration of the file server (go/ssa interpretation) and a dominator rule for preconditions",
-  text="Decides the necessary ordering condition only: in the exploration of the whole file server over every outcome of every OS call, no run answers 4xx/5xx after a destructive call (create/truncate, remove, rename, mkdir) has succeeded; and the If-Match/If-None-Match check and every sanitiser check dominate the first destructive call of each LocalFileSystem method. The pinned tree's violations (COPY/MOVE remove the destination first and copy without staging, PUT truncates before reading the body: D10) are listed as known findings, keyed by (method, first effect, failing call), so any other ordering violation is still reported. Does not decide what a partially failed OS call leaves behind nor cancellation timing.",
+  text="Decides the necessary ordering condition only: in the exploration of the whole file server over every outcome of every OS call, no run answers 4xx/5xx after a destructive call (create/truncate, remove, rename, mkdir) has succeeded; and the If-Match/If-None-Match check and every sanitiser check dominate the first destructive call of each LocalFileSystem method. The pinned tree's violations (COPY/MOVE remove the destination first and copy without staging, PUT truncates before reading the body: D10) are listed as known findings, keyed by (method, first effect, failing call), so any other ordering violation is still reported. Does not decide what a partially failed OS call leaves behind nor cancellation timing. The trace rule judges the NET change per resource (create+remove of a new file is no change; a new file left behind, or an existing one truncated/removed, is), sets aside runs that are not sequential executions or contain more than one fault, and looks for the fault before as well as after the effect.",
   note="Trusted: go/ssa; OS-call models; a destructive call that fails leaves no effect (false for the non-atomic RemoveAll, stated).",
   ref="DESIGN.md §3 C02"),
  "C17": dict(
@@ -93,12 +93,12 @@ CLAIMED = {
   ref="DESIGN.md §3 C17"),
  "C11": dict(
   technique="static analysis: decision tables by abstract interpretation of go/ssa (PROPFIND core and the three adapters)",
-  text="Extracts from the SSA of the current source the decision tables of NewPropFindResponse (request forms; per-property accounting for <=2 requested names: known/failing/unknown; propname and allprop), of Response.EncodeProp (one propstat per status), of the three adapters' PropFind (responses emitted as a function of Depth, hierarchy level and ownership), of ServeMultiStatus (207 before the body), of the Depth/body handling (dispatch table shared with C01) and of the principal helper, and compares every row with the statement. Does not decide duplicates in the request, the bytes produced by encoding/xml, nor arbitrary numbers of members (lists bounded by 1-2).",
+  text="Extracts from the SSA of the current source the decision tables of NewPropFindResponse (request forms; per-property accounting for <=2 requested names: known/failing/unknown; propname and allprop), of Response.EncodeProp (one propstat per status), of the three adapters' PropFind (responses emitted as a function of Depth, hierarchy level and ownership), of ServeMultiStatus (207 before the body), of the Depth/body handling (dispatch table shared with C01) and of the principal helper, and compares every row with the statement. Does not decide duplicates in the request, the bytes produced by encoding/xml, nor arbitrary numbers of members (lists bounded by 1-2). Also: which properties are registered as a function of the backend's value (a file's length always, attributes whose zero means unknown only when non-zero).",
   note="Trusted: go/ssa; the user's Backend is an opaque interface whose calls are effects; resourceTypeAtPath's result is an atom.",
   ref="DESIGN.md §3 C11"),
  "C12": dict(
   technique="static analysis: decision tables by abstract interpretation of go/ssa (every adapter method), sibling comparison, structural rules",
-  text="Extracts the level -> backend-operation table of every caldav/carddav adapter method (Mkcol, Delete, Options, HeadGet, Put; PropFind is C11's scope table) with the classified level as an atom, checks that the path handed to the backend is r.URL.Path itself, that foreign principal/home-set paths expose nothing, that every adapter literal gets the trimmed prefix, that the two packages' tables are equal up to renaming (except the recorded DELETE difference), and that the client's discovery steps return the decoded href's path. The segment-counting arithmetic of resourceTypeAtPath over all prefixes and spellings is run-time string arithmetic: not decided (not applicable for that clause).",
+  text="Extracts the level -> backend-operation table of every caldav/carddav adapter method (Mkcol, Delete, Options, HeadGet, Put; PropFind is C11's scope table) with the classified level as an atom, checks that the path handed to the backend is r.URL.Path itself, that foreign principal/home-set paths expose nothing, that every adapter literal gets the trimmed prefix, that the two packages' tables are equal up to renaming (except the recorded DELETE difference), and that the client's discovery steps return the decoded href's path. The segment-counting arithmetic of resourceTypeAtPath over all prefixes and spellings is run-time string arithmetic: not decided (not applicable for that clause). Also the PROPFIND scope tables of both adapters (shared with C11.scope): nothing of the current user is emitted for a foreign principal or home-set path.",
   note="Trusted: go/ssa; resourceTypeAtPath classifies by depth below the prefix.",
   ref="DESIGN.md §3 C12"),
 }
